@@ -590,6 +590,11 @@ def execute(case, scratch):
                     for c in classes or ['none']:
                         if failing:
                             sets['tuples'].add('%s|%s|%s' % (site, c, path))
+                    if isinstance(actual, dict) and '__raised__' in actual and case.get('stderr_broken') and ('Broken pipe' in actual['__raised__'] or 'Errno 32' in actual['__raised__']):
+                        # nobody reads stderr and the code wanted to say something there: it may die of that (loudly); what it must not do
+                        # is carry on with other results - which the command-level check below still sees
+                        count['died_of_broken_stderr'] = count.get('died_of_broken_stderr', 0) + 1
+                        continue
                     if isinstance(actual, dict) and '__raised__' in actual:
                         add('DONE', path, 'raised', 'item r%d through %s: classification aborted with `%s` (failing expression at %s site: `%s`, %s)'
                             % (it['id'], path, actual['__raised__'], site, case['expr'], sorted(classes) or 'evaluates fine alone'))
@@ -633,7 +638,9 @@ def execute(case, scratch):
                 util.write_world(world, {fname: text, 'stmt.csv': '\n'.join(lines) + '\n'})
                 got, fired = run(lambda: classify_file(rpath, os.path.join(world, 'stmt.csv'), case['mode']), faults)
                 log.append(['file', util.digest(got)])
-                if isinstance(got, dict) and '__raised__' in got:
+                if isinstance(got, dict) and '__raised__' in got and case.get('stderr_broken') and ('Broken pipe' in got['__raised__'] or 'Errno 32' in got['__raised__']):
+                    count['died_of_broken_stderr'] = count.get('died_of_broken_stderr', 0) + 1
+                elif isinstance(got, dict) and '__raised__' in got:
                     add('DONE', 'parse_generic_csv', 'raised', 'parse_generic_csv over %d rows aborted with `%s` (failing %s `%s`): the whole source is lost'
                         % (len(stmt_items), got['__raised__'], site, case['expr']))
                 elif len(got) != len(stmt_items):
@@ -660,14 +667,19 @@ def execute(case, scratch):
             if True:
                 rules_rel = 'config/merchants.rules' if fam == 'rules' else 'config/merchant_categories.csv'
                 osrc = case.get('orders_source')
+                half_ = (len(lines) - 1 + 1) // 2 if len(lines) > 2 else len(lines) - 1
                 settings = ('year: 2025\ndata_sources:\n  - name: Card\n    file: data/stmt.csv\n'
                             '    format: "{date:%Y-%m-%d},{description},{amount},{kind}"\n' +
+                            ('  - name: Card\n    file: data/stmt2.csv\n    format: "{date:%Y-%m-%d},{description},{amount},{kind}"\n' if len(lines) > 2 else '') +
                             ('  - name: orders\n    file: data/orders.csv\n    format: "{date:%Y-%m-%d},{description},{amount}"\n    supplemental: true\n'
                              if osrc else '') + 'merchants_file: ' + rules_rel + '\n')
                 if case['mode'] != 'first_match':
                     settings += 'rule_mode: %s\n' % case['mode']
                 broot = os.path.join(scratch, 'b')
-                bfiles = {'config/settings.yaml': settings, rules_rel: text, 'data/stmt.csv': '\n'.join(lines) + '\n'}
+                # the rows are spread over two statements (a source lost along the way shows as missing rows in a report that still comes out)
+                bfiles = {'config/settings.yaml': settings, rules_rel: text, 'data/stmt.csv': '\n'.join(lines[:1 + half_]) + '\n'}
+                if len(lines) > 2:
+                    bfiles['data/stmt2.csv'] = '\n'.join(lines[:1] + lines[1 + half_:]) + '\n'
                 cplan = {'net': 'down', 'eval_faults': faults or None, 'today': case.get('today', '2025-06-15')}
                 if case.get('stderr_broken'):
                     cplan['stdout_fault'] = {'after_effect': -1, 'stream': 'stderr'}
@@ -689,7 +701,9 @@ def execute(case, scratch):
                 log.append(['up', r.exit, util.sha(util.norm_text(r.out, broot))])
                 from .c15 import parse_json_report
                 doc = parse_json_report(r.out) if r.exit == 0 else None
-                if doc is None:
+                if doc is None and case.get('stderr_broken') and r.exit != 0:
+                    count['died_of_broken_stderr'] = count.get('died_of_broken_stderr', 0) + 1      # it could not say what it wanted to say and stopped: loud, not wrong
+                elif doc is None:
                     add('DONE', 'tally up', 'raised', '`tally up` on %d rows exits %d: %s (failing %s `%s`)'
                         % (len(stmt_items), r.exit, (r.err.strip().split('\n') or [''])[-1][:200], site, case['expr']))
                 else:
@@ -749,7 +763,9 @@ def execute(case, scratch):
                 count['evaluations'] += 1
                 count['command_runs'] = count.get('command_runs', 0) + 1
                 log.append(['up', argv, r.exit, util.sha(util.norm_text(r.out, broot))])
-                if r.exit != 0:
+                if r.exit != 0 and case.get('stderr_broken'):
+                    count['died_of_broken_stderr'] = count.get('died_of_broken_stderr', 0) + 1
+                elif r.exit != 0:
                     add('DONE', 'tally up', 'raised', '`tally %s` with %d merchants exits %d: %s (failing %s `%s`)'
                         % (' '.join(argv), len(merchants), r.exit, (r.err.strip().split('\n') or [''])[-1][:200], site, case['expr']))
             if isinstance(actual, dict) and '__raised__' in actual:
